@@ -1,2 +1,3 @@
 import LyModel.Props.C05
-#print axioms LyModel.Props.C05.placeholder
+#print axioms LyModel.Props.C05.json_exp_number_in_bounds
+#print axioms LyModel.Props.C05.getutf8_reads_before_nul
